@@ -79,9 +79,10 @@ struct Violation {
     detail: String,
 }
 
-const FAULTS: [&str; 14] = [
+const FAULTS: [&str; 15] = [
     "short_write", "eintr_write", "eio", "enospc", "crash_lost", "crash_torn", "bit_flip", "zeroed", "dup_sector",
     "truncate", "short_read_or_eintr_read", "early_eof", "digit_substitution", "numeric_field_substitution",
+    "writer_panics",
 ];
 
 #[derive(Default, Clone)]
@@ -91,8 +92,8 @@ struct Stats {
     decodes: u64,
     encodes: u64,
     enumerated_decodes: u64,
-    fault_configured: [u64; 14],
-    fault_fired: [u64; 14],
+    fault_configured: [u64; 15],
+    fault_fired: [u64; 15],
     outcomes: BTreeMap<(Ty, Codec, &'static str), u64>,
     probes: BTreeMap<&'static str, u64>,
     max_text_len: usize,
@@ -109,7 +110,7 @@ impl Merge for Stats {
         self.decodes += o.decodes;
         self.encodes += o.encodes;
         self.enumerated_decodes += o.enumerated_decodes;
-        for i in 0..14 {
+        for i in 0..15 {
             self.fault_configured[i] += o.fault_configured[i];
             self.fault_fired[i] += o.fault_fired[i];
         }
@@ -174,7 +175,7 @@ impl Stats {
         };
         for (k, out) in [("fault_configured", &mut s.fault_configured), ("fault_fired", &mut s.fault_fired)] {
             if let Some(a) = v[k].as_array() {
-                for (i, x) in a.iter().enumerate().take(14) {
+                for (i, x) in a.iter().enumerate().take(15) {
                     out[i] = x.as_u64().unwrap_or(0);
                 }
             }
@@ -515,6 +516,7 @@ fn exec_op(op: &Op, w: &mut World, enumerate: bool, stats: &mut Stats, log: &mut
                 WriteFault::Eintr { .. } => Some(1),
                 WriteFault::Eio { .. } => Some(2),
                 WriteFault::Enospc { .. } => Some(3),
+                WriteFault::Panic { .. } => Some(14),
             };
             if let Some(i) = fi {
                 stats.fault_configured[i] += 1;
@@ -947,6 +949,7 @@ fn draw_write_fault(rng: &mut Rng) -> WriteFault {
         1 => WriteFault::Eintr { nth: 1 + rng.usize_below(4) },
         2 => WriteFault::Eio { at: rng.usize_below(30) },
         3 => WriteFault::Enospc { at: rng.usize_below(30) },
+        4 => WriteFault::Panic { nth: 1 + rng.usize_below(3) },
         _ => WriteFault::None,
     }
 }
@@ -1301,6 +1304,7 @@ fn wf_to_json(f: &WriteFault) -> Value {
         WriteFault::Eintr { nth } => json!({"eintr_nth_call": nth}),
         WriteFault::Eio { at } => json!({"eio_at_byte": at}),
         WriteFault::Enospc { at } => json!({"enospc_at_byte": at}),
+        WriteFault::Panic { nth } => json!({"writer_panics_in_call": nth}),
     }
 }
 
@@ -1313,6 +1317,8 @@ fn wf_from_json(v: &Value) -> WriteFault {
         WriteFault::Eio { at: m as usize }
     } else if let Some(m) = v.get("enospc_at_byte").and_then(|x| x.as_u64()) {
         WriteFault::Enospc { at: m as usize }
+    } else if let Some(m) = v.get("writer_panics_in_call").and_then(|x| x.as_u64()) {
+        WriteFault::Panic { nth: m as usize }
     } else {
         WriteFault::None
     }
@@ -1354,7 +1360,8 @@ fn script_to_json(s: &Script) -> Value {
             Op::ReadAll { fault, eof_record } => json!({"op": "restart_and_read_all", "read_max_chunk": us(fault.max), "eintr_every": fault.eintr_every, "early_eof_at": us(fault.early_eof), "eof_record": eof_record}),
         })
         .collect();
-    json!({"seed": s.seed, "run": s.run, "fault_free": s.fault_free, "enumerate_single_faults_per_record": s.enumerate, "ops": ops})
+    json!({"seed": s.seed, "run": s.run, "fault_free": s.fault_free, "enumerate_single_faults_per_record": s.enumerate, "ops": ops,
+        "env": simcore::envswarm::installed_json()})
 }
 
 fn script_from_json(v: &Value) -> Result<Script, String> {
@@ -1440,6 +1447,8 @@ fn replay(path: &str, expect_class: Option<&str>) -> i32 {
             return EXIT_HARNESS;
         }
     };
+    // the environment of the worker process that found it
+    simcore::envswarm::install_from_json(&v["script"]["env"]);
     let mut st = Stats::default();
     let (viol, hash) = run_script(&script, &mut st);
     println!("replay {}: {} ops, log hash {:016x}", path, script.ops.len(), hash);
@@ -1600,6 +1609,9 @@ fn main() {
 
     // ---- worker process: one slice of one phase, single-threaded, shares no library state ----
     if let Some((phase, k, w)) = worker_proc {
+        // the process environment is a seam too: odd-numbered workers run with a seeded set of
+        // date/locale related variables, even-numbered ones with none of them
+        simcore::envswarm::install(&simcore::envswarm::plan(seed, k));
         let mut acc = Stats::default();
         match phase.as_str() {
             "clean" | "fault" => {
@@ -1639,6 +1651,7 @@ fn main() {
         std::process::exit(EXIT_OK);
     }
 
+    simcore::envswarm::install(&simcore::envswarm::baseline());
     println!("C15 simulation: VERIF_SEED={seed} tier={tier}");
     let mut phase_errors: Vec<String> = Vec::new();
     let mut run_phase = |phase: &str| -> Stats {
@@ -1683,7 +1696,10 @@ fn main() {
 
     // ---- scenario B: threads under Miri ----
     let miri_seeds = miri_seeds_override.unwrap_or(if thorough { 256 } else { 16 });
-    let rates: Vec<&str> = if thorough { vec!["0.05", "0.5"] } else { vec!["0.1"] };
+    // a high preemption rate (a thread switch after almost every basic block) interleaves threads that do
+    // the same thing at the finest grain; lower rates give longer uninterrupted stretches
+    let rates: Vec<&str> = if thorough { vec!["0.05", "0.5", "0.9"] } else { vec!["0.9", "0.1"] };
+    let miri_seeds = if thorough { miri_seeds } else { (miri_seeds / 2).max(1) };
     let miri_res = if no_miri || !total.violations.is_empty() {
         None
     } else {
@@ -1704,6 +1720,9 @@ fn main() {
     for (idx, script, v) in total.violations.clone() {
         let class = v.class;
         println!("original violation (run {}): class={} sig={} : {}", idx, class, v.sig, v.detail);
+        // from here on this process, and every process it starts, runs in the environment of the
+        // worker that found the violation
+        simcore::envswarm::install(&simcore::envswarm::plan(seed, idx % workers as u64));
         // does the run reproduce on its own in a fresh process? if not, hidden
         // state from earlier runs of the same worker thread takes part: prepend them
         let mut base: Option<Script> = None;
